@@ -357,6 +357,10 @@ def run_impl(inp: dict, rng=None, flavour: str = "mixed", nops: int = 0):
                 segs.append(err(e))
                 steps.append((op, cur, None, err(e)))
                 break
+            if a2 is not a:
+                again = snapshot(a)["cells"]
+                if not cells_equal(again, cur["cells"], Fraction(0)):
+                    steps.append((["input-mutated", op], cur, {"cells": again}, "err:InputMutated"))
             a = a2
             segs.append(dump(a, mode))
             nxt = snapshot(a)
@@ -602,7 +606,9 @@ def spec_raised(ctx: Ctx, inp: dict, steps) -> None:
         if error is None:
             continue
         size = len(inp["cells"]) + 4 * idx
-        if error not in MODELLED_ERRORS:
+        if error == "err:InputMutated":
+            ctx.spec_fail("op_pure:input-allocation-changed", inp, {"step": idx, "op": op[1]}, size)
+        elif error not in MODELLED_ERRORS:
             ctx.spec_fail("operation-raised", inp, {"step": idx, "op": op, "raised": error}, size)
         elif op[0] == "init" and inp.get("expect_valid"):
             ctx.spec_fail("operation-raised:constructor-on-valid-layout", inp, {"raised": error}, size)
